@@ -296,6 +296,8 @@ def run(prog, tier):
     obs.extend(default_instance_obligations(prog, "components-not-shared", [('GpOptimiser', '__init__')]))
 
     obs.extend(dtype_hazard_obligations(prog, "float-arithmetic", ['inference/gp/acquisition.py', 'inference/gp/optimisation.py']))
+    from .common import call_order_obligations
+    obs.extend(call_order_obligations(prog, "arguments-in-order", ['inference/gp/acquisition.py', 'inference/gp/optimisation.py']))
 
     obs.extend(memo_obligations(prog, "cache-key", [prog.cls("AcquisitionFunction")] + prog.subclasses("AcquisitionFunction") + [prog.cls("GpOptimiser")]))
 
